@@ -139,7 +139,7 @@ static void * script(void * a) {
       } else mt_fail("timedlock returned %d", rc);
       break; }
     case K_TIMEDJOIN: {
-      myth_thread_t t; Z0(myth_create_ex(&t, 0, target_body, (void *)(intptr_t)o->k));
+      myth_thread_t t; Z0(mt_create(&t, target_body, (void *)(intptr_t)o->k));
       if (o->b == 7) { do_yields(o->k + 2); }          /* sometimes let the target finish first */
       r = my_rec();
       struct timespec dl; deadline_after(o->a, o->b == 7 ? 0 : o->b, &dl);
@@ -209,8 +209,8 @@ void scen_c20(mt_case * c) {
   mt_lib_start(c, &e, 0);
   MT_DIRTY(Z.m); MT_DIRTY(Z.free_m); Z0(myth_mutex_init(&Z.m, 0)); for (int i = 0; i < 8; i++) Z0(myth_mutex_init(&Z.free_m[i], 0));
   myth_thread_t th[8], sib = 0;
-  if (Z.sibling) Z0(myth_create_ex(&sib, 0, sibling_body, 0));
-  for (int t = 0; t < Z.T; t++) Z0(myth_create_ex(&th[t], 0, script, (void *)(intptr_t)t));
+  if (Z.sibling) Z0(mt_create(&sib, sibling_body, 0));
+  for (int t = 0; t < Z.T; t++) Z0(mt_create(&th[t], script, (void *)(intptr_t)t));
   for (int t = 0; t < Z.T; t++) { Z0(myth_join(th[t], 0)); mv_progress(); }
   Z.stop_sibling = 1;
   if (sib) Z0(myth_join(sib, 0));
